@@ -20,7 +20,7 @@ DATA_DEPENDENT_HEADER = {'transpose', 'pivot', 'recast', 'unpackdict(sample)', '
                          'fromdicts(list)'}
 NO_HEADER = {'values', 'values(multi)', 'data', 'dicts', 'records', 'namedtuples', 'flatten'}
 # addcolumn: the 3 column values still make 3 rows (padded with missing); transpose: the 3 remaining fields become rows
-UNARY_ROWS = {'aggregate(key=None)': 1, 'aggregate(key=None,sum)': 1, 'aggregate(key=None,list)': 1, 'pushheader': 1, 'transpose': 3, 'flatten': 0, 'addcolumn': 3}
+UNARY_ROWS = {'aggregate(key=None)': 1, 'aggregate(key=None,sum)': 1, 'aggregate(key=None,list)': 1, 'pushheader': 1, 'transpose': 3, 'flatten': 0, 'addcolumn': 3, 'addcolumn(index=1)': 3}
 # skip(1) skips the header row itself: nothing at all is left of a header-only table, by definition
 EMPTY_OK = {'skip'}
 COUNT_FREE = {'merge', 'unflatten', 'fromcolumns', 'fromdicts(list)', 'facet'}
